@@ -9,7 +9,9 @@ import os, re, shutil, subprocess
 from bbox import Sandbox, Rng, hexs, HOST, CLI_BIN
 
 NAMES = ["a", "b.txt", "sp ace", "quo'te", "the 'final' draft", "''", "a'b'c.txt", "it\\'s", "x\\", "\\'\\'", 'dq"uote', "back\\slash", "dol$lar", "st*ar", "qm?ark", "-dash", "unié中",
-         "notes..old", "v1..v2.diff", "..hidden", "trail..", "new\nline", "tab\tname", "semi;colon", "amp&ersand", "paren(s)", "a.copia", "x.tmp", "[br]", "~tilde", "#hash", "%p", "$(echo x)", "`bt`", ".tmp", ".env", "prod.env", "star", "stXXar", "qmaark", "[br", "b"]
+         "notes..old", "v1..v2.diff", "..hidden", "trail..", "new\nline", "tab\tname", "semi;colon", "amp&ersand", "paren(s)", "a.copia", "x.tmp", "[br]", "~tilde", "#hash", "%p", "$(echo x)", "`bt`", ".tmp", ".env", "prod.env", "star", "stXXar", "qmaark", "[br", "b",
+         "C:\\temp\\new.txt", "old\\backup.dat", "dbl\\\\back", "oct\\101",
+         "trail-sp ", "trail-nl\n", " lead-sp"]     # (seed C14-P) backslash + a letter bash's $'…' decodes; (seed C19-P) names ending or starting in white space
 DIRS = ["", "d", "d/e", "sp dir", "q'd", "q'd'q", "d.d", "-x", ".tmp"]
 EXCL = ["*.tmp", "d", "d/*", "sp*", "*'*", "a", "?", "x.tmp/", "*\\*", "d/e/", "b.txt", "*.env", "*.tmp"]
 CONTENT = [b"", b"x", b"hello\n", b"A" * 1000, b"\x00\x01\x02", b"line1\nline2\n", bytes(range(256)) * 20]
@@ -327,6 +329,39 @@ def write_limit_section(rng, thorough, res, count):
     return n
 
 
+def many_failures_section(thorough, res, count):
+    """C04 "exits successfully ⇒ every planned file is byte-identical at the destination": N planned files each of whose destination
+    name is occupied by a directory (the final rename fails), for N around the values at which a status derived from a COUNT wraps
+    in the 8 bits the OS keeps — 1, 255, 256, 257, 512 (thorough: also 65 536, local) — beside one file that can be delivered
+    (seed C04-P: `exit(failed as i32)`, so exactly 256 failures exited 0)."""
+    for direction in ("local", "pull"):
+        for n in (1, 255, 256, 257, 512) + ((65536,) if thorough and direction == "local" else ()):
+            with Sandbox("C04mf") as sb:
+                sroot = os.path.join(sb.home, "rsrc") if direction == "pull" else sb.path("src")
+                droot = sb.path("dst")
+                os.makedirs(sroot); os.makedirs(droot)
+                for i in range(n):
+                    with open(os.path.join(sroot, f"f{i:05d}"), "wb") as fh:
+                        fh.write(b"x%d\n" % i)
+                    os.makedirs(os.path.join(droot, f"f{i:05d}", "occupied"))
+                with open(os.path.join(sroot, "ok.txt"), "wb") as fh:
+                    fh.write(b"deliverable\n")
+                rc, out, err = sb.run(["sync", "-r", "--jobs", "8", f"{HOST}:rsrc" if direction == "pull" else sroot, droot], timeout=900)
+                out, err = out.decode("utf-8", "replace"), err.decode("utf-8", "replace")
+                count(f"many-failures/{direction}/{n}")
+                undelivered = 0
+                for i in range(n):
+                    p = os.path.join(droot, f"f{i:05d}")
+                    if not os.path.isfile(p) or open(p, "rb").read() != b"x%d\n" % i:
+                        undelivered += 1
+                rep = {"direction": direction, "planned_files_whose_name_is_a_directory_at_the_destination": n, "rc": rc, "undelivered": undelivered,
+                       "stdout": out[-300:], "stderr": err[-300:]}
+                if rc == 0 and undelivered:
+                    res["violations"].append(("exit-0-but-planned-file-not-delivered", f"{direction}: {undelivered} of {n + 1} planned files could not be delivered (their destination names are directories) and copia exited 0", rep))
+                if rc != 0 and not err.strip() and "failed" not in out.lower():
+                    res["violations"].append(("failed-without-report", f"the run failed (rc {rc}) on {n} undeliverable files without reporting an error", rep))
+
+
 def big_listing_section(res, count):
     """C14 / C19 / C04: a remote listing far larger than one pipe read (≈ 300 KiB), whose names consist almost entirely of 4-byte
     UTF-8 characters: wherever the listing is cut into reads, a cut falls inside a character. Both trees hold the same files with the
@@ -430,6 +465,47 @@ def excluded_twin_section(res, count):
                 res["violations"].append(("exit-0-but-planned-file-not-delivered", f"{direction}: data/report.bin was not delivered and the run exited 0", rep))
             if rc == 0 and "old.txt" in d1:
                 res["violations"].append(("stale-file-not-deleted", f"{direction}: --delete left old.txt and exited 0", rep))
+
+
+def missing_destination_dry_run_section(res, count):
+    """C15 "--dry-run changes nothing": the dry run BEFORE a first sync — the destination root (and two of its ancestors) does not
+    exist yet. Everything under the destination's existing ancestor is snapshotted with `lstat` (type, size, mtime; directories
+    included — a file map cannot see a created directory) before and after; nothing may appear and no mtime may move (seed C15-P:
+    the destination scan was preceded by `create_dir_all(dst)`, above the dry-run gate)."""
+    def snap(root):
+        out = {}
+        for dp, dns, fns in os.walk(root):
+            for nm in [""] + dns + fns:
+                p = os.path.join(dp, nm) if nm else dp
+                st = os.lstat(p)
+                out[os.path.relpath(p, root)] = (st.st_mode, st.st_size if not os.path.isdir(p) else 0, st.st_mtime_ns)
+        return out
+    for direction in ("local", "pull", "push"):
+        for flags in ([], ["--delete"]):
+            with Sandbox("C15md") as sb:
+                src = {"a.txt": b"a\n", "d/e/b.bin": bytes(range(200))}
+                if direction == "pull":
+                    sroot, parent = os.path.join(sb.home, "rsrc"), sb.path("lparent")
+                    sarg, darg = f"{HOST}:rsrc", os.path.join(parent, "new", "deeper", "dst")
+                elif direction == "push":
+                    sroot, parent = sb.path("src"), os.path.join(sb.home, "rparent")
+                    sarg, darg = sroot, f"{HOST}:rparent/new/deeper/dst"
+                else:
+                    sroot, parent = sb.path("src"), sb.path("lparent")
+                    sarg, darg = sroot, os.path.join(parent, "new", "deeper", "dst")
+                sb.write_tree(sroot, src); os.makedirs(parent)
+                with open(os.path.join(parent, "bystander.txt"), "wb") as fh:
+                    fh.write(b"here before\n")
+                os.utime(parent, ns=(1_600_000_000_000_000_000, 1_600_000_000_000_000_000))
+                before = snap(parent)
+                rc, out, err = sb.run(["sync", "-r", "--dry-run", sarg, darg] + flags, timeout=60)
+                after = snap(parent)
+                count(f"dry-run-missing-destination/{direction}")
+                if before != after:
+                    diff = sorted(k for k in set(before) | set(after) if before.get(k) != after.get(k))
+                    rep = {"direction": direction, "flags": flags, "rc": rc, "stdout": out.decode("utf-8", "replace")[-300:], "stderr": err.decode("utf-8", "replace")[-300:],
+                           "appeared_or_changed_under_the_existing_ancestor": diff}
+                    res["violations"].append(("dry-run-changed-a-tree", f"{direction}: `sync -r --dry-run` into a destination that does not exist yet created or touched {diff[:4]} (\".\" is the existing ancestor itself)", rep))
 
 
 def stale_staging_section(res, count):
@@ -1065,9 +1141,11 @@ def run(pid, tier, seed, rundir, model_run):
         comma_exclude_section(res, count)
         stale_staging_section(res, count)
         big_listing_section(res, count)
+        many_failures_section(thorough, res, count)
     if pid == "C15":
         comma_exclude_section(res, count)
         excluded_twin_section(res, count)
+        missing_destination_dry_run_section(res, count)
         remote_failure_section(rng, thorough, res, count)      # (for its excluded-file-vs-directory part: excludes protect)
     if pid == "C14":
         symlink_second_run_section(res, count)
